@@ -585,6 +585,13 @@ func (c *Compiler) compileSwitch(node *ast.Switch) error {
 		return err
 	}
 
+	// The switch value stays on the stack until the end of the switch. A break
+	// or continue inside the switch jumps out of it and has to pop that value.
+	if loop := c.currentLoop(); loop != nil {
+		loop.pendingSwitchValues++
+		defer func() { loop.pendingSwitchValues-- }()
+	}
+
 	choices := node.Choices()
 
 	// Emit jump positions for each case
@@ -1266,6 +1273,10 @@ func (c *Compiler) compileControl(node *ast.Control) error {
 			return c.formatError("invalid break statement outside of a loop", node.Token().StartPosition)
 		}
 		return c.formatError("invalid continue statement outside of a loop", node.Token().StartPosition)
+	}
+	// Pop the values of any switch statements being left by this jump
+	for i := 0; i < loop.pendingSwitchValues; i++ {
+		c.emit(op.PopTop)
 	}
 	if literal == "break" {
 		// When breaking from a for-range loop, we need to pop the iterator from the stack
